@@ -40,12 +40,15 @@ func (v *vc) smtFor(ob *obligation, withModel bool, values []string) string {
 		b.WriteString(l)
 		b.WriteByte('\n')
 	}
-	for _, it := range v.items[:ob.pos] {
+	for idx, it := range v.items[:ob.pos] {
 		switch it.kind {
 		case itDecl:
 			b.WriteString(it.text)
 			b.WriteByte('\n')
 		case itFact:
+			if ob.skipItem > 0 && idx == ob.skipItem || ob.skipOrigin != "" && it.origin == ob.skipOrigin {
+				continue
+			}
 			b.WriteString("(assert ")
 			b.WriteString(it.text)
 			b.WriteString(")\n")
@@ -128,6 +131,33 @@ func (v *vc) discharge(ob *obligation, opts solveOpts, workDir string) {
 	want := "unsat"
 	if ob.cover {
 		want = "sat"
+		// vacuity guard: models of quantified formulas are expensive; try the full query briefly,
+		// then the relaxation without quantified facts (a model of fewer facts; detects every
+		// contradiction among the quantifier-free facts: requires, invariants, path conditions).
+		status, _, ms := runSolver(solvers[0], file, 3)
+		ob.ms += ms
+		if status == "sat" {
+			ob.status, ob.backend = "sat", solvers[0].name
+			return
+		}
+		if status == "unsat" {
+			ob.status, ob.backend = "unsat", solvers[0].name
+			return
+		}
+		relaxed := v.smtRelaxed(ob)
+		rfile := filepath.Join(workDir, sanitize(ob.name)+".relaxed.smt2")
+		os.WriteFile(rfile, []byte(relaxed), 0o644)
+		for _, s := range solvers {
+			status, out, ms := runSolver(s, rfile, 10)
+			ob.ms += ms
+			if status == "sat" || status == "unsat" {
+				ob.status, ob.backend = status, s.name+"(qf-relaxed)"
+				return
+			}
+			ob.output += fmt.Sprintf("[%s] %s %s\n", s.name, status, firstLines(out, 1))
+		}
+		ob.status = "unknown"
+		return
 	}
 	agree := 0
 	var total int64
